@@ -137,7 +137,9 @@ zix_bump_aligned_free(ZixAllocator* const allocator, void* const ptr)
 ZIX_CONST_FUNC ZixBumpAllocator
 zix_bump_allocator(const size_t capacity, void* buffer)
 {
-  const size_t aligned_top = (uintptr_t)buffer % min_alignment;
+  // Offset of the first aligned address in the buffer (not the misalignment)
+  const size_t misalignment = (uintptr_t)buffer % min_alignment;
+  const size_t aligned_top  = misalignment ? (min_alignment - misalignment) : 0U;
 
   ZixBumpAllocator bump_allocator = {
     {
